@@ -231,7 +231,7 @@ def twin_spec(draw):
     spec["noise"] = out
     spec["snapshots"] = sorted(draw(st.lists(st.integers(0, n - 1), max_size=n, unique=True))) if draw(st.booleans()) else list(range(n))
     sec_paths = [p_ for p_ in paths if p_.split(">")[-1] in spec["prices"]] or paths
-    any_read = st.tuples(st.sampled_from(paths), st.sampled_from(["value", "weight", "notional_value", "price", "prices", "values", "positions", "cash", "fees", "flows"]))
+    any_read = st.tuples(st.sampled_from(paths), st.sampled_from(["value", "weight", "notional_value", "price", "prices", "values", "positions", "cash", "fees", "flows", "universe", "universe"]))
     sec_read = st.tuples(st.sampled_from(sec_paths), st.sampled_from(["value", "weight", "notional_value", "price", "values", "positions"]))  # incl. dormant (flat, skipped) securities
     spec["first_reads"] = [list(x) for x in draw(st.lists(st.one_of(any_read, sec_read, sec_read), min_size=1, max_size=8))]
     return spec
